@@ -98,6 +98,7 @@ type cworld struct {
 	ore    *orefafs.OrefaFS
 	ids    map[*vsync.RWMutex]int
 	next   int
+	known  []any // MemFS nodes seen so far, in id order (extra roots of the dump: detached nodes keep their subtrees)
 }
 
 // the initial tree: setup calls executed sequentially, uninstrumented
@@ -143,10 +144,12 @@ func (w *cworld) view() avfs.VFS {
 // for OrefaFS the index lock is 0).
 func (w *cworld) refresh() {
 	if w.mem != nil {
-		for _, n := range memfs.VerifDump(w.mem) {
+		nodes, _ := memfs.VerifDump(w.mem, w.known)
+		for _, n := range nodes {
 			if _, ok := w.ids[n.Mu]; !ok {
 				w.ids[n.Mu] = w.next
 				w.next++
+				w.known = append(w.known, n.Ref)
 			}
 		}
 		return
@@ -163,6 +166,9 @@ func (w *cworld) refresh() {
 		}
 	}
 }
+
+// Sync implements sched.Namer.
+func (w *cworld) Sync() { w.refresh() }
 
 // Name implements sched.Namer.
 func (w *cworld) Name(m *vsync.RWMutex) int {
@@ -183,7 +189,8 @@ func (w *cworld) snapshot(withIDs bool) string {
 	w.refresh()
 	var sb strings.Builder
 	if w.mem != nil {
-		d := memfs.VerifDump(w.mem)
+		d, reach := memfs.VerifDump(w.mem, nil)
+		d = d[:reach]
 		lab := func(i int) int {
 			if withIDs {
 				return w.ids[d[i].Mu]
@@ -840,9 +847,32 @@ func (cr *concRun) check(p cprog, e *cexec, emit bool) {
 			cr.stats["linearizable"]++
 		}
 	}
-	if emit && p.fsname == "memfs" {
+	if emit && p.fsname == "memfs" && !ambiguousRemoveAll(p, e) {
 		cr.o.emit(p.caseLine(e.initial, e.s.Schedule), e.observed(), p.progText()+"#"+e.resultsText()+"#"+e.canon)
 	}
+}
+
+// ambiguousRemoveAll: the recursion of RemoveAll ranges over a Go map, so with two or more
+// sub-directories its lock order is not determined; such executions are explored and checked
+// but not compared with the model (which walks the entries in name order).
+func ambiguousRemoveAll(p cprog, e *cexec) bool {
+	for ti, th := range p.threads {
+		for ci, c := range th {
+			if c.op != "removeall" {
+				continue
+			}
+			w := 0
+			for _, a := range e.s.Threads[ti].Traces[ci] {
+				if a.Write {
+					w++
+				}
+			}
+			if w >= 4 {
+				return true
+			}
+		}
+	}
+	return false
 }
 
 func randFor(n int) [][]string { return concRand[:n] }
